@@ -100,7 +100,7 @@ func (s *pullStream) Send(m *traits.PullBookingsResponse) error {
 var bookingMasks = [][]string{nil, {"id", "booked"}, {"id", "title"}, {"id", "check_in"}}
 
 func bookingPhase(r *vk.Run) {
-	n := r.Pick(1500, 40000)
+	n := r.Pick(4000, 150000)
 	for i := 0; i < n; i++ {
 		if !r.Mine(i) {
 			continue
@@ -119,6 +119,8 @@ type bookingCase struct {
 	view   *vk.View
 	taken  int
 	all    []string
+	// tableViolated: a decision-table row was already reported in this case (see exec.tableViolated)
+	tableViolated bool
 }
 
 func (c *bookingCase) log(format string, a ...any) {
@@ -198,6 +200,9 @@ func bookingMap(l []proto.Message) map[string]proto.Message {
 }
 
 func (c *bookingCase) violation(key, what string, st map[string]*traits.Booking) {
+	if strings.HasPrefix(key, "C08/booking/pull/table/") {
+		c.tableViolated = true
+	}
 	var ids []string
 	for id := range st {
 		ids = append(ids, id)
@@ -265,7 +270,9 @@ func (c *bookingCase) oracles(where string, st map[string]*traits.Booking) {
 			fmt.Sprintf("%s: ListBookings(booking_intersects) = %s, reference filter gives %s", where, vk.ListJSON(real), vk.ListJSON(want)), st)
 	}
 	c.r.Count("booking/fold-checks", 1)
-	if folded := c.view.Sorted(); !vk.SameList(folded, real) {
+	if folded := c.view.Sorted(); !vk.SameList(folded, real) && c.tableViolated {
+		c.r.Count("booking/fold-mismatches-attributed-to-a-reported-table-row", 1)
+	} else if !vk.SameList(folded, real) {
 		c.violation("C08/booking/pull/fold/"+diffClass(c.view.Items, bookingMap(real)),
 			fmt.Sprintf("%s: fold of PullBookings(booking_intersects) = %s but ListBookings with the same request = %s", where, vk.ListJSON(folded), vk.ListJSON(real)), st)
 	}
@@ -421,10 +428,12 @@ func runBooking(r *vk.Run, rng *vk.Rand) {
 		pending = append(pending, pend{id: id, failed: err != nil, before: st[id], aft: after[id], what: what})
 		if err != nil {
 			r.Count("booking/writes/failed", 1)
+			same := len(after) == len(st)
 			for oid, b := range after {
-				if !proto.Equal(b, st[oid]) || len(after) != len(st) {
-					r.Inconclusive("booking/failed-write-changed-state", what)
-				}
+				same = same && st[oid] != nil && proto.Equal(b, st[oid])
+			}
+			if !same {
+				r.Inconclusive("booking/failed-write-changed-state", what)
 			}
 		} else {
 			r.Count("booking/writes/ok", 1)
@@ -496,7 +505,7 @@ func (c *bookingCase) table(what string, failed bool, before, after *traits.Book
 	default:
 		kind, wantOld, wantNew = types.ChangeType_UPDATE, c.proj(before), c.proj(after)
 	}
-	base := "C08/booking/pull/" + row + "/"
+	base := "C08/booking/pull/table/" + row + "/"
 	var got []string
 	for _, e := range evs {
 		got = append(got, changeString(e))
